@@ -17,6 +17,9 @@ import ModVerif.Proofs.EditRefineExact
 import ModVerif.Proofs.EditRefineSorted
 import ModVerif.Proofs.EditRefineInvBulk
 import ModVerif.Proofs.EditRefineInvWork
+import ModVerif.Proofs.EditMoreSepG
+import ModVerif.Proofs.EditMoreSepJ
+import ModVerif.Proofs.EditMoreComD
 namespace ModVerif.Props.C16
 open ModVerif ModVerif.EditSpec ModVerif.Modfile
 
@@ -343,5 +346,129 @@ example : sortBy lineRetractLess [[B "v1.0.0"], [B "[", B "v1.2.0", B ",", B "v1
     = [[B "v1.9.0"], [B "[", B "v1.2.0", B ",", B "v1.3.0", B "]"], [B "v1.0.0"]] := by decide +kernel
 example : sortBy lineExcludeLess [[B "a", B "v1.10.0"], [B "a", B "v1.9.0"]] = [[B "a", B "v1.9.0"], [B "a", B "v1.10.0"]] := by
   decide +kernel
+
+/-! ### SetRequireSeparateIndirect on the syntax tree (Proofs/EditMoreSep*.lean) -/
+
+/-- **SetRequireSeparateIndirect on the syntax tree.**  Same statement as `setRequire_tree_exact`, for the setter that
+    also rearranges the blocks (`ensureBlock`, inserted empty blocks, requirement lines moved under fresh ids): after the
+    call and Cleanup, for EVERY map-iteration order, the invariant holds again, every requested entry has a live line
+    `require <AutoQuoted path> <version>` carrying the `// indirect` marker iff requested, and the tree has no other
+    live `require` line. -/
+theorem setRequireSeparateIndirect_tree_exact (e e' : Edit.EFile) (want : List Edit.Want) (perm : List Edit.Want → List Edit.Want)
+    (hperm : ∀ l, (perm l).Perm l) (hg : Edit.GoodWant want) (hi : Edit.Inv e)
+    (hlive : ∀ r ∈ e.f.require, Edit.liveRq r = true) (hset : Edit.NoNestedIndirectMarker e)
+    (h : Edit.setRequireSeparateIndirect e want perm = .ok e') :
+    Edit.Inv (Edit.cleanup e') ∧
+    (∀ w ∈ want, ∃ v ∈ Edit.view (Edit.cleanup e').f.syn.stmts, v.toks = [B "require", autoQuote w.path, w.vers] ∧
+      Edit.isIndirectS v.suffix = w.indirect) ∧
+    (∀ v ∈ Edit.view (Edit.cleanup e').f.syn.stmts, v.toks.head? = some (B "require") →
+      ∃ w ∈ want, v.toks = [B "require", autoQuote w.path, w.vers] ∧ Edit.isIndirectS v.suffix = w.indirect) :=
+  Edit.setRequireSeparateIndirect_tree_exact e e' want perm hperm hg hi hlive hset h
+
+/-- **blocks_sorted (partial 3): the bulk requirement setters.**  `SetRequire` and `SetRequireSeparateIndirect` end with
+    SortBlocks on a state that satisfies the tree invariant (`Edit.setRequire_presort`,
+    `Edit.setRequireSeparateIndirect_presort`), so in their result EVERY block — exclude blocks under the semantic order
+    included — is sorted by the comparator the code selects for it.  With `blocks_sorted_partial2` (SortBlocks itself,
+    AddTool) this covers every go.mod operation that sorts.  Still missing for the full statement: go.work. -/
+theorem blocks_sorted_partial3 (e e' : Edit.EFile) (want : List Edit.Want) (perm : List Edit.Want → List Edit.Want)
+    (hperm : ∀ l, (perm l).Perm l) (hg : Edit.GoodWant want) (hi : Edit.Inv e)
+    (hlive : ∀ r ∈ e.f.require, Edit.liveRq r = true) (hset : Edit.NoNestedIndirectMarker e)
+    (h : Edit.setRequire e want perm = .ok e' ∨ Edit.setRequireSeparateIndirect e want perm = .ok e')
+    (b : LineBlock) (hb : Expr.lineBlock b ∈ e'.f.syn.stmts) :
+    Sorted (Edit.onToken (Edit.lessFor (Edit.semOf e.f) false b.token)) b.lines :=
+  Edit.bulk_blocks_sorted e e' want perm hperm hg hi hlive hset h b hb
+
+/-- non-vacuity of `setRequireSeparateIndirect_tree_exact` / `blocks_sorted_partial3`: a state built from the empty file
+    ending with Cleanup: every requirement is live, every line's marker is settable, and SetRequireSeparateIndirect
+    succeeds in both map-iteration orders -/
+example :
+    (match Edit.runOps Edit.applyMod (Edit.load {})
+        [.addModule (B "example.com/m"), .addGo (B "1.21"), .addRequire (B "example.com/a") (B "v1.0.0"),
+         .addNewRequire (B "example.com/b") (B "v1.2.3") true, .addExclude (B "x") (B "v1.10.0"), .addExclude (B "x") (B "v1.9.0"),
+         .cleanup] [] 0 with
+     | .done e _ =>
+       let want : List Edit.Want := [⟨B "example.com/e", B "v1.0.0", true⟩, ⟨B "example.com/a", B "v1.9.0", true⟩,
+         ⟨B "example.com/b", B "v1.2.3", false⟩]
+       Edit.invB e && Edit.bulkOKB e want &&
+         (Edit.setRequireSeparateIndirect e want (Edit.permOf true)).isOk &&
+         (Edit.setRequireSeparateIndirect e want (Edit.permOf false)).isOk
+     | _ => false) = true := by decide +kernel
+
+/-- **separate_blocks.**  When the file's requirements are ONE uncommented statement — a single `require` line or a single
+    `require ( … )` block that carries no comment of its own (`Edit.sepOneFlat`, the code's `len(…)==1 && !hasComments`
+    test on the scan of the statements) — then after `SetRequireSeparateIndirect want` and Cleanup, for EVERY
+    map-iteration order, no `require` block of the tree holds both a line with and a line without the `// indirect`
+    marker: direct and indirect requirements end in two different blocks (every kept requirement is moved, under a fresh
+    line id, to the block of its kind; the two blocks are different statements: `Edit.SepGood.ne`; Cleanup, removeDups
+    and the sort never merge statements: `Edit.StmtRefines`).  Hypotheses as for `setRequireSeparateIndirect_tree_exact`. -/
+theorem separate_blocks (e e' : Edit.EFile) (want : List Edit.Want) (perm : List Edit.Want → List Edit.Want)
+    (hperm : ∀ l, (perm l).Perm l) (hg : Edit.GoodWant want) (hi : Edit.Inv e)
+    (hlive : ∀ r ∈ e.f.require, Edit.liveRq r = true) (hset : Edit.NoNestedIndirectMarker e)
+    (hone : Edit.sepOneFlat e.f.syn.stmts (Edit.scanStmts e.f.syn.stmts 0 {}) = true)
+    (h : Edit.setRequireSeparateIndirect e want perm = .ok e')
+    (b : LineBlock) (hb : Expr.lineBlock b ∈ (Edit.cleanup e').f.syn.stmts) (htok : b.token = [B "require"]) :
+    (∀ l ∈ b.lines, isIndirect l = true) ∨ (∀ l ∈ b.lines, isIndirect l = false) :=
+  Edit.separate_blocks e e' want perm hperm hg hi hlive hset hone h b hb htok
+
+/-- non-vacuity of `separate_blocks`: a parsed file whose requirements are one uncommented block mixing direct and
+    indirect lines satisfies the hypotheses, and the call yields two blocks (direct first) -/
+example :
+    (match parseStrict (B "go.mod") (B "module m\n\nrequire (\n\ta v1.0.0 // indirect\n\tb v1.0.0\n\tc v1.0.0\n)\n") none with
+     | .ok f =>
+       let e := Edit.load f
+       let want : List Edit.Want := [⟨B "a", B "v1.0.0", true⟩, ⟨B "b", B "v1.1.0", false⟩, ⟨B "d", B "v1.0.0", true⟩, ⟨B "e", B "v1.0.0", false⟩]
+       Edit.invB e && Edit.bulkOKB e want && Edit.sepOneFlat e.f.syn.stmts (Edit.scanStmts e.f.syn.stmts 0 {}) &&
+         (match Edit.setRequireSeparateIndirect e want (Edit.permOf true) with
+          | .ok e' => Edit.blocksOf (Edit.cleanup e').f.syn ==
+              [([B "require"], [[B "b", B "v1.1.0"], [B "e", B "v1.0.0"]]), ([B "require"], [[B "a", B "v1.0.0"], [B "d", B "v1.0.0"]])]
+          | .error _ => false)
+     | .error _ => false) = true := by decide +kernel
+
+/-- **comments_survive.**  `SetRequire` / `SetRequireSeparateIndirect` keep the comments of the requirement they keep.  For
+    the FIRST existing requirement `r` of a requested path (`e.f.require = d ++ r :: t`, no requirement in `d` has its
+    path; later duplicates are removed), with `x0` its line (full tokens, `Before` and `Suffix` comments: `Edit.viewX`),
+    after the call and Cleanup, for EVERY map-iteration order, there is a live line with the requested version that carries
+    * every `Before` comment of `x0` except blank-line placeholders (`Edit.BeforeKept`; the only comment ever dropped is
+      the single blank-line placeholder removed by `setVersion`, golang.org/issue/33779);
+    * the `Suffix` comments of `x0` as `setIndirect` rewrites them, `Edit.sfxAfter w.indirect x0.suffix`: only the text of
+      the first comment changes (the marker `// indirect` is added or removed, the rest of the text — the payload after
+      `// indirect;` — stays), and a comment that is nothing but the marker is dropped (`sfxAfter_rewrites_marker_only`).
+    The line may have been moved to another block by SetRequireSeparateIndirect (`Edit.viewX_moveExisting`). -/
+theorem comments_survive (e e' : Edit.EFile) (want : List Edit.Want) (perm : List Edit.Want → List Edit.Want)
+    (hperm : ∀ l, (perm l).Perm l) (hg : Edit.GoodWant want) (hi : Edit.Inv e)
+    (hlive : ∀ r ∈ e.f.require, Edit.liveRq r = true) (hset : Edit.NoNestedIndirectMarker e)
+    (h : Edit.setRequire e want perm = .ok e' ∨ Edit.setRequireSeparateIndirect e want perm = .ok e')
+    (d : List Require) (r : Require) (t : List Require) (hsplit : e.f.require = d ++ r :: t)
+    (hfirst : ∀ r' ∈ d, r'.mod.path ≠ r.mod.path) (w : Edit.Want) (hw : w ∈ want) (hwp : w.path = r.mod.path)
+    (x0 : Edit.XLine) (hx0 : x0 ∈ Edit.viewX e.f.syn.stmts) (hid0 : x0.id = r.lineId) :
+    ∃ x' ∈ Edit.viewX (Edit.cleanup e').f.syn.stmts, x'.toks = [B "require", autoQuote r.mod.path, w.vers] ∧
+      Edit.BeforeKept x0.before x'.before ∧ (Edit.sfxAfter w.indirect x0.suffix).Sublist x'.suffix := by
+  rcases h with h | h
+  · exact Edit.setRequire_comments e e' want perm hperm hg hi hlive hset h d r t hsplit hfirst w hw hwp x0 hx0 hid0
+  · exact Edit.setRequireSeparateIndirect_comments e e' want perm hg hi hlive hset h d r t hsplit hfirst w hw hwp x0 hx0 hid0
+
+/-- `setIndirect` rewrites nothing but the marker in the text of the first end-of-line comment -/
+theorem sfxAfter_rewrites_marker_only (b : Bool) (c : Comment) (rest : List Comment) :
+    (∃ tok, Edit.sfxAfter b (c :: rest) = { c with token := tok } :: rest) ∨
+    (b = false ∧ Edit.sfxAfter b (c :: rest) = [] ∧
+      GoStrings.trimSpace (GoStrings.trimPrefix c.token Edit.slashSlash) = B "indirect") :=
+  Edit.sfxAfter_cons b c rest
+
+/-- non-vacuity of `comments_survive`: a parsed file whose requirement `a` (first of two lines for `a`) carries a `Before`
+    comment and the end-of-line comment `// indirect; why`; both setters keep `// keep` and the payload `why` -/
+example :
+    (match parseStrict (B "go.mod") (B "module m\n\nrequire (\n\t// keep\n\ta v1.0.0 // indirect; why\n\tb v1.0.0\n\ta v1.1.0\n)\n") none with
+     | .ok f =>
+       let e := Edit.cleanup (Edit.load f)
+       let want : List Edit.Want := [⟨B "a", B "v1.2.0", false⟩, ⟨B "c", B "v1.0.0", true⟩]
+       Edit.invB e && Edit.bulkOKB e want &&
+       (match Edit.setRequire e want (Edit.permOf false), Edit.setRequireSeparateIndirect e want (Edit.permOf true) with
+        | .ok e1, .ok e2 =>
+          (Edit.viewX (Edit.cleanup e1).f.syn.stmts).any (fun x => x.toks == [B "require", B "a", B "v1.2.0"] &&
+            x.before.map (·.token) == [B "// keep"] && x.suffix.map (·.token) == [B "// why"]) &&
+          (Edit.viewX (Edit.cleanup e2).f.syn.stmts).any (fun x => x.toks == [B "require", B "a", B "v1.2.0"] &&
+            x.before.map (·.token) == [B "// keep"] && x.suffix.map (·.token) == [B "// why"])
+        | _, _ => false)
+     | .error _ => false) = true := by decide +kernel
 
 end ModVerif.Props.C16
